@@ -20,6 +20,12 @@ def rand_fr(star):
     """randFr / randFrStar (dealer polynomial coefficients): arbitrary field elements; the derivation from
     the seed through SHA3 / ChaCha20 / map_bytes_to_Fr is outside the threshold-signature check"""
     def f(ex, a, ins):
+        if getattr(ex, 'galg_formal_coeffs', False):
+            # large signer sets: the dealer's random coefficients are formal indeterminates (generic values;
+            # polynomial identities are then decided by coefficient comparison, stated in the bounds)
+            g = galg.new_gen(ex, 'hpa')
+            galg.sc_write(ex, a[0], galg.Poly.gen(g))
+            return None if star else False
         g = galg.new_gen(ex, 'pa')
         v = galg.mvar(ex, (g,))
         if star:
@@ -28,7 +34,42 @@ def rand_fr(star):
         return None if star else simp(v == 0)
     return f
 
+def fr_is_os2ip_mod_r(ex, a, ins):
+    """frIsOS2IPModR(x, b): the scalar x is OS2IP(b) mod r -- compared as exact linear forms over Z_r in the
+    bytes of b (coefficients folded by the encoder), residual condition decided by the solver"""
+    px = galg.sc_read(ex, a[0])
+    pb = galg.os2ip_poly(ex, ex.read_bytes(a[1]))
+    return galg.zero_cond(ex, px - pb)
+
+def map_to_fr_cut(limit, force_first_zero=False):
+    """mapToFr executed from the real SSA/IR; after `limit` calls on one path the result is assumed non-zero
+    (bound on the key-generation retry loop: each retry needs a fresh HKDF output that is 0 mod r)"""
+    def f(ex, a, ins):
+        n = ex.pstate.get('mapToFr_calls', 0) + 1
+        ex.pstate['mapToFr_calls'] = n
+        fn = ex.prog.funcs[P + 'mapToFr']
+        key = tuple((b if isinstance(b, int) else b.get_id()) for b in ex.read_bytes(a[1]))
+        r = ex.run(fn, a)
+        if force_first_zero:
+            # hypothetical: the first byte string ever mapped is 0 mod r (cannot be produced natively: it
+            # needs an HKDF output that is a multiple of r); the same string is zero on every later call
+            fz = ex.pstate.setdefault('mapToFr_forced', key)
+            if fz == key:
+                ex.events.append(('reach', 'forced zero'))
+                return True
+        if n > limit:
+            c = bnot(r)
+            if c is False or (c is not True and not ex.feasible(c)):
+                raise PathEnd('assume_false')
+            ex.assumes.append('mapToFr retry bound')
+            if c is not True:
+                ex.add(c)
+            return False
+        return r
+    return f
+
 def install(ex):
+    ex.stubs[P + 'frIsOS2IPModR'] = fr_is_os2ip_mod_r
     ex.stubs[P + 'randFr'] = rand_fr(False)
     ex.stubs[P + 'randFrStar'] = rand_fr(True)
     ex.stubs[P + 'nondetFr'] = nondet_fr(False)
